@@ -279,8 +279,8 @@ Proof.
     try (left; reflexivity); right; eexists; reflexivity.
 Qed.
 
-Lemma lex_str_S f s pos tmp start endpos :
-  lex_str (S f) s pos tmp start endpos =
+Lemma lex_str_S curly f s pos tmp start endpos :
+  lex_str curly (S f) s pos tmp start endpos =
   match s with
   | "" => (TErr PUntermStr pos endpos, "", pos)
   | String c r =>
@@ -289,17 +289,17 @@ Lemma lex_str_S f s pos tmp start endpos :
       | None => (TErr PUntermStr pos endpos, "", S pos)
       | Some (c2, r2) =>
         let p2 := S pos + String.length c2 in
-        esc_dispatch c2 (fun X => lex_str f r2 p2 (tmp ++ X) start endpos) (TErr PEscape pos p2, r2, p2)
+        esc_dispatch c2 (fun X => lex_str curly f r2 p2 (tmp ++ X) start endpos) (TErr PEscape pos p2, r2, p2)
       end
     else if (byte_of c =? 34)%N then
       let p2 := S pos in
       if next_is_ws_or_end r then (TLit (CStr tmp), r, p2) else (TErr PExpectWs start p2, r, p2)
-    else if starts_rdq s then
+    else if curly && starts_rdq s then
       let r3 := str_drop 3 s in
       let p2 := pos + 3 in
       if next_is_ws_or_end r3 then (TLit (CStr tmp), r3, p2) else (TErr PExpectWs start p2, r3, p2)
     else
-      lex_str f r (S pos) (tmp ++ String c "") start endpos
+      lex_str curly f r (S pos) (tmp ++ String c "") start endpos
   end.
 Proof. reflexivity. Qed.
 
@@ -329,12 +329,12 @@ Proof.
   exact Hv.
 Qed.
 
-Lemma lex_str_spec : forall f s pos tmp start endpos t s' pos',
-  lex_str f s pos tmp start endpos = (t, s', pos') ->
+Lemma lex_str_spec : forall curly f s pos tmp start endpos t s' pos',
+  lex_str curly f s pos tmp start endpos = (t, s', pos') ->
   advx s pos s' pos' /\ (is_err t = false -> vsuf s -> valid_go s' 0 = true).
 (* see also lex_str_kind below *)
 Proof.
-  induction f as [|f IH]; intros s pos tmp start endpos t s' pos' H.
+  intros curly. induction f as [|f IH]; intros s pos tmp start endpos t s' pos' H.
   - cbn [lex_str] in H. injection H as <- <- <-. split; [apply advx_refl|discriminate].
   - rewrite lex_str_S in H. destruct s as [|c r].
     + injection H as <- <- <-. split; [apply advx_refl|discriminate].
@@ -343,7 +343,7 @@ Proof.
         -- destruct (take_char_spec _ _ _ Etc) as (k & K1 & K2 & K3). cbv zeta in H.
            assert (A0 : advx (String c r) pos r2 (S pos + String.length c2)).
            { eapply advx_cons; [|reflexivity]. subst r2. rewrite K2. apply advx_drop. exact K1. }
-           destruct (esc_cases c2 (fun X => lex_str f r2 (S pos + String.length c2) (tmp ++ X) start endpos)
+           destruct (esc_cases c2 (fun X => lex_str curly f r2 (S pos + String.length c2) (tmp ++ X) start endpos)
                                (TErr PEscape pos (S pos + String.length c2), r2, S pos + String.length c2))
              as [Hc|[X Hc]]; rewrite Hc in H.
            ++ injection H as <- <- <-. split; [exact A0|discriminate].
@@ -358,8 +358,8 @@ Proof.
            destruct (next_is_ws_or_end r); injection H as <- <- <-; (split; [exact A0|]).
            ++ intros _ Hv. apply (valid_ascii_tail c r Hv). lia.
            ++ discriminate.
-        -- destruct (starts_rdq (String c r)) eqn:E3.
-           ++ cbv zeta in H.
+        -- destruct (curly && starts_rdq (String c r)) eqn:E3'.
+           ++ cbv zeta in H. apply andb_prop in E3'. destruct E3' as [_ E3].
               assert (A0 : advx (String c r) pos (str_drop 3 (String c r)) (pos + 3))
                 by (apply advx_drop, starts_rdq_len, E3).
               destruct (next_is_ws_or_end (str_drop 3 (String c r))); injection H as <- <- <-;
@@ -472,10 +472,10 @@ Qed.
 Definition lit_or_err (t : tok) : bool :=
   match t with TLit _ | TErr _ _ _ => true | _ => false end.
 
-Lemma lex_str_kind : forall f s pos tmp start endpos,
-  lit_or_err (fst (fst (lex_str f s pos tmp start endpos))) = true.
+Lemma lex_str_kind : forall curly f s pos tmp start endpos,
+  lit_or_err (fst (fst (lex_str curly f s pos tmp start endpos))) = true.
 Proof.
-  induction f as [|f IH]; intros s pos tmp start endpos; [reflexivity|].
+  intros curly. induction f as [|f IH]; intros s pos tmp start endpos; [reflexivity|].
   rewrite lex_str_S. destruct s as [|c r]; [reflexivity|].
   destruct (byte_of c =? 92)%N.
   - destruct (take_char r) as [[c2 r2]|]; [|reflexivity]. cbv zeta.
@@ -484,7 +484,7 @@ Proof.
     + apply IH.
   - destruct (byte_of c =? 34)%N.
     + cbv zeta. destruct (next_is_ws_or_end r); reflexivity.
-    + destruct (starts_rdq (String c r)).
+    + destruct (curly && starts_rdq (String c r)).
       * cbv zeta. destruct (next_is_ws_or_end (str_drop 3 (String c r))); reflexivity.
       * apply IH.
 Qed.
